@@ -125,3 +125,15 @@ Theorem routes_agree_R : forall (m : mdgrid) (fv : list point -> list point -> l
   integrate_nonvec ROps m f c = fold_right Rplus 0%R (map2 (fun p w => (f p * w)%R) (md_points m) (md_weights ROps m)).
 Proof. exact routes_agree_R_lemma. Qed.
 Print Assumptions routes_agree_R.
+
+(* ---- histories on one object: the observations are a function of the component grids as they are at the time of the
+   call (no state is remembered between calls) *)
+Theorem history_routes_agree : forall (T : Type) (o : NumOps T), semiring o ->
+  forall (m0 : mdgrid) (ops : list op) (fv : list point -> list point -> list T) (f : list point -> T) (c : nat),
+  Forall wf_grid (grid_list m0) -> md_valid m0 -> history_ok m0 ops -> vectorises fv f -> 1 <= c ->
+  let m := run_history m0 ops in
+  integrate_vec o m fv = nested_sum o (domains m) f /\
+  integrate_nonvec o m f c = nested_sum o (domains m) f /\
+  md_size m = N.of_nat (length (md_points m)) /\ length (md_points m) = length (md_weights o m).
+Proof. exact history_routes_agree_lemma. Qed.
+Print Assumptions history_routes_agree.
